@@ -275,3 +275,55 @@ def strict_after_loading_and_cloning(H, path):
     p.attach_module(mm)
     p.clone()
     probe("Project.clone with MetaModule")
+
+
+@contract(
+    "defaults_unaffected_by_earlier_instances", ["C09", "C17"], kind="bounded", cases=_class_cases,
+    targets=["rv.modules.module:Module.__init__", "rv.chunks.array:ArrayChunk.reset", "rv.modules.spectravoice:SpectraVoice.__init__"],
+    bound="per class: one instance built, every list-valued payload it owns edited in place (arrays, drawn waveform, SpectraVoice harmonics through "
+          "their public setters, every controller set to its maximum / last member), then a second instance built and compared with the specification; natively",
+)
+def defaults_unaffected_by_earlier_instances(H, cname):
+    """A freshly constructed module reports the specified defaults also when another module of the type
+    was constructed and edited before it."""
+    cls = K.class_by_name(cname)
+    spec = _spec_for(cls)
+    if spec is None:
+        return
+    a = cls()
+    K.lenient()
+    try:
+        for k, v in vars(a).items():
+            vals = getattr(v, "values", None)
+            if isinstance(vals, list) and vals and all(isinstance(x, int) and not isinstance(x, bool) for x in vals):
+                for i in range(len(vals)):
+                    vals[i] = (vals[i] + 17) % 250
+        if hasattr(a, "drawn_waveform"):
+            for i in range(len(a.drawn_waveform.samples)):
+                a.drawn_waveform.samples[i] = (i * 5) % 120
+        for h in getattr(a, "harmonics", []) or []:
+            h.freq_hz, h.volume, h.width = 440 + h.index, 17, 9
+        for cs in spec.controllers:
+            ctl = cls.controllers[cs.name]
+            t = ctl.instance_value_type(a)
+            try:
+                if isinstance(t, Range):
+                    setattr(a, cs.name, t.max)
+                elif t is bool:
+                    setattr(a, cs.name, not getattr(a, cs.name))
+                elif K.is_enum_type(t):
+                    setattr(a, cs.name, list(t)[-1])
+            except Exception:  # noqa - editing A is only the history; what is checked is B
+                pass
+    finally:
+        K.strict()
+    b = cls()
+    for cs in spec.controllers:
+        got = getattr(b, cs.name)
+        if cs.kind == "enum":
+            ok = getattr(got, "name", None) == cs.default
+        elif cs.kind == "bool":
+            ok = got is bool(cs.default)
+        else:
+            ok = got == cs.default
+        H.check(f"default_of_second_instance_matches_spec[{cs.name}]", ok, witness={"class": cname, "controller": cs.name, "got": repr(got), "spec": repr(cs.default)})
